@@ -288,21 +288,25 @@ namespace
                     auto value = res->data_try<d_boolean, bool>();
                     if (value.has_value())
                     {
-                        return result::ok;
+                        if (*value)
+                        { // the condition holds: done waiting
+                            return result::ok;
+                        }
+                        // false: wait and evaluate the condition again
                     }
                     else
                     {
                         runtime.__logmsg(logmessage::runtime::TypeMissmatch(frame.diag_info_from_position(), t_boolean(), res->type()));
                     }
                 }
-                else if (m_count > 30000 && runtime.context_active().can_suspend())
-                {
-                    runtime.__logmsg(logmessage::runtime::WaitUntilMaxLoopReached(frame.diag_info_from_position()));
-                    return result::ok;
-                }
                 else
                 {
                     runtime.__logmsg(logmessage::runtime::CallstackFoundNoValue(frame.diag_info_from_position(), "waitUntil"s));
+                }
+                if (m_count > 30000 && runtime.context_active().can_suspend())
+                {
+                    runtime.__logmsg(logmessage::runtime::WaitUntilMaxLoopReached(frame.diag_info_from_position()));
+                    return result::ok;
                 }
                 // "Simulate" a frame wait
                 runtime.context_active().suspend(std::chrono::milliseconds(10));
